@@ -63,6 +63,15 @@ CATALOG = {
                              {"schema": "s1", "type_name": "ty8", "base_type": "OBJECT",
                               "properties": {"attributes": [{"name": "f1", "type": "array_kind", "size": None}, {"name": "f2", "type": "Enum_code", "size": None},
                                                             {"name": "f3", "type": "int", "size": None}]}}),
+    # table types whose columns carry options (an inline key makes the column non-nullable, as in a table), names that ARE reserved words
+    ("type", "table_opts"): ("CREATE TYPE s1.ty9 AS TABLE (id int PRIMARY KEY, b varchar(3) NOT NULL, c int UNIQUE);",
+                             {"schema": "s1", "type_name": "ty9", "properties": {"columns": [{"name": "id", "type": "int", "size": None, "references": None, "unique": False, "primary_key": True, "nullable": False, "default": None, "check": None}, {"name": "b", "type": "varchar", "size": 3, "references": None, "unique": False, "primary_key": False, "nullable": False, "default": None, "check": None}, {"name": "c", "type": "int", "size": None, "references": None, "unique": True, "primary_key": False, "nullable": True, "default": None, "check": None}]}}),
+    ("type", "kw_key"): ("CREATE TYPE key AS ENUM ('a');", {"schema": None, "type_name": "key", "base_type": "ENUM", "properties": {"values": ["'a'"]}}),
+    ("type", "kw_check"): ("CREATE OR REPLACE TYPE check AS OBJECT (f1 int);", {"schema": None, "type_name": "check", "base_type": "OBJECT",
+                                                                               "properties": {"attributes": [{"name": "f1", "type": "int", "size": None}]}}),
+    ("type", "kw_schema_part"): ("CREATE TYPE index.tag AS ENUM ('x');", {"schema": "index", "type_name": "tag", "base_type": "ENUM", "properties": {"values": ["'x'"]}}),
+    ("type", "kw_default_table"): ("CREATE TYPE default AS TABLE (a int);", {"schema": None, "type_name": "default"}),
+    ("type", "kw_cap"): ("CREATE TYPE Index AS ENUM ('a');", {"schema": None, "type_name": "Index", "base_type": "ENUM", "properties": {"values": ["'a'"]}}),
     ("schema", "auth_kwp"): ("CREATE SCHEMA sc9 AUTHORIZATION array_admin;", {"schema_name": "sc9", "authorization": "array_admin"}),
     ("schema", "auth_kwp_upper"): ("CREATE SCHEMA sc10 AUTHORIZATION ARRAY_ADMIN;", {"schema_name": "sc10", "authorization": "ARRAY_ADMIN"}),
     ("database", "kwp"): ("CREATE DATABASE database_1;", {"database_name": "database_1"}),
